@@ -4,10 +4,12 @@ use serde_json::Value;
 
 mod c03;
 mod c04;
+mod c08;
 mod c09;
 mod c11;
 mod c13;
 mod c18;
+mod dump;
 mod fsops;
 mod fsutil;
 mod util;
@@ -23,6 +25,7 @@ fn main() {
     let observed: Vec<Value> = match args[1].as_str() {
         "c03" => cases.iter().map(c03::run).collect(),
         "c04" => cases.iter().map(c04::run).collect(),
+        "c08" => cases.iter().map(c08::run).collect(),
         "c09" => cases.iter().map(c09::run).collect(),
         "fsops" => cases.iter().map(fsops::run).collect(),
         "c11" => cases.iter().map(c11::run).collect(),
